@@ -125,4 +125,16 @@ CLAIMED['C06'] = dict(category='proof',
         'The metamorphic run-time contracts are BOUNDED (four generated cores). Cross-talk through the inter-assembly gap '
         'is intended and belongs to C02.',
    technique='contract-based verification of ownership/frame conditions (static effect analysis of the real clone and sweep methods) + bounded metamorphic run-time contracts')
+CLAIMED['C13'] = dict(category='proof',
+   text='With constant conductivities the real PinModel.calculate_temperatures (solid and annular pellets, real radial '
+        'geometry from PinModel.__init__) is run to completion on symbolic inputs and proved: film drop = q\'/(2 pi r_o h), '
+        'clad drops = q\' ln(r_o/r)/(2 pi k), closed gap, fuel shells sum of q\'\'\'(r_o^2-r_i^2)/(4k), ordering coolant <= '
+        '... <= centre line, zero power gives the coolant temperature everywhere, monotone in power. With conductivities '
+        'as uninterpreted positive functions of temperature each of the three iteration loops is cut from the source and '
+        'ONE arbitrary iteration proved to re-establish the conduction relation with k averaged over the two iterates '
+        '(clad, gap with radiation term, each fuel shell), and the iteration limit raises an error. The coolant temperature '
+        'handed to each pin is an exact affine combination of its adjacent subchannels with non-negative weights summing to 1.',
+   note=_ASSUME + 'log/sqrt handled by monotonicity certificates; the exit-state argument (iterates within atol) is the '
+        'stated loop contract. Ring counts 2,3 (4 thorough) for the coolant weights.',
+   technique='contract-based deductive verification (proxy execution, loops cut from the real source, exact normaliser, monotone-function certificates)')
 NOT_APPLICABLE = {f'C{i:02d}': 'check not built yet in this round (see DESIGN.md section 12 build order)' for i in range(1, 21)}
